@@ -350,7 +350,8 @@ func corruptBytes(raw []byte, k *Corrupt) []byte {
 		if err != nil {
 			return out
 		}
-		switch k.Pos % 12 {
+		epochs := []uint16{m.LocalEpoch + 1, m.LocalEpoch + 2, m.LocalEpoch + 3, 0, 0xffff, 0xfffe, 0x8000, 0x0100, 0x7fff}
+		switch k.Pos % 13 {
 		case 0:
 			m.MasterSecret = append([]byte(nil), m.MasterSecret...)
 			if len(m.MasterSecret) > 0 {
@@ -367,9 +368,9 @@ func corruptBytes(raw []byte, k *Corrupt) []byte {
 		case 5:
 			m.IsClient = !m.IsClient
 		case 6:
-			m.LocalEpoch += uint16(1 + k.Arg%3) //nolint:gosec
+			m.LocalEpoch = epochs[k.Arg%len(epochs)]
 		case 7:
-			m.RemoteEpoch += uint16(1 + k.Arg%3) //nolint:gosec
+			m.RemoteEpoch = epochs[k.Arg%len(epochs)] - m.LocalEpoch + m.RemoteEpoch
 		case 8:
 			m.LocalConnectionID = append(append([]byte(nil), m.LocalConnectionID...), byte(k.Arg))
 		case 9:
@@ -378,6 +379,8 @@ func corruptBytes(raw []byte, k *Corrupt) []byte {
 			m.LocalRandom, m.RemoteRandom = m.RemoteRandom, m.LocalRandom
 		case 11:
 			m.Version.Minor = byte(k.Arg)
+		case 12:
+			m.SequenceNumber = []uint64{0, 1<<48 - 1, 1 << 48, 1 << 63, 1<<64 - 1, m.SequenceNumber + 1000, 1<<48 - 2, 1 << 32, 1<<16 - 1}[k.Arg%9]
 		}
 		if enc, err := scen.EncodeState(m); err == nil {
 			out = enc
@@ -536,7 +539,7 @@ func enumCorrupt(_ string, yield func(Case) bool) {
 					return
 				}
 			}
-			for f := 0; f < 12; f++ {
+			for f := 0; f < 13; f++ {
 				for a := 0; a < 9; a++ {
 					c := base
 					c.Corrupt = &Corrupt{Kind: "field", Pos: f, Arg: a}
@@ -565,7 +568,7 @@ func init() {
 	})
 	pbt.Register(pbt.Prop[Case]{
 		Name: "corrupted-state-grid", Enum: enumCorrupt, Exhaustive: true, Run: runCorrupt, Crashy: true,
-		Rule: "GRID: every truncation length 0..699 and every field edit (12 fields x 9 values) for a default session, both sides, with and without CID; same oracle as corrupted-state",
+		Rule: "GRID: every truncation length 0..699 and every field edit (13 fields x 9 values incl. epoch and sequence-number boundary values) for a default session, both sides, with and without CID; same oracle as corrupted-state",
 	})
 	_ = vnet.Pass
 	_ = fmt.Sprint
